@@ -31,11 +31,15 @@ def gen(rng, tier, i):
 
     def cmd(text): p.cycle(send(0, 'do ' + text + '\r\n'))
 
+    def BIG():
+        # intervals around the widths an implementation may store them in: such an object must simply not beat within the run
+        return rng.choice((5, 5, 5, 255, 256, 32767, 32768, 65535, 65536, 65537, 2147483647))
+
     def action(inside, me):
         r = rng.random()
         others = [x for x in names if x != me] or [me]
         if r < 0.25: return 'hb %s %d' % (rng.choice(others), rng.choice((0, 0, 1, 1, 2, 3)))
-        if r < 0.45: return 'hb me %d' % rng.choice((0, 1, 2, 3, 5)) if inside else 'hb %s %d' % (rng.choice(names), rng.choice((0, 1, 2, 3)))
+        if r < 0.45: return 'hb me %d' % rng.choice((0, 1, 2, 3, 5, BIG())) if inside else 'hb %s %d' % (rng.choice(names), rng.choice((0, 1, 2, 3, BIG())))
         # reload_object() switches the heart beat off like a destruct does (the object lives on without its tag)
         if r < 0.6: return '%s %s' % ('dest' if rng.random() < 0.75 else 'reload', rng.choice(others))
         if r < 0.7 and inside: return 'dest me' if rng.random() < 0.7 else 'reload me'
